@@ -4,6 +4,7 @@
   implementation's observations.
 -/
 import TinyHttpModel.Proto
+import TinyHttpModel.ParCase
 import TinyHttpModel.ConnSpec
 import TinyHttpModel.Req
 
@@ -155,8 +156,19 @@ def run (kv : KV) : String :=
   let sub := "heads:" ++ b01 v.heads ++ ",bodies:" ++ b01 v.bodies ++ ",seq:" ++ b01 v.seq ++ ",wire:" ++ b01 v.wire
     ++ ",eof:" ++ b01 v.eof ++ ",addr:" ++ b01 (v.addr && toNatD (get kv "gone_noaddr") == 0) ++ ",nohang:" ++ b01 (!hang) ++ ",results:" ++ b01 okResults
     ++ ",dates:" ++ b01 (get kv "dates" == "ok") ++ extra
+  -- concurrent handlers: the handlers' event sequence must be an execution of `Lts.Par` whose
+  -- submitted bytes are the client's bytes
+  let readEndOfStr (x : String) : ReadEnd := if x == "eof" then .eof else if x == "err" then .err
+    else if x == "pending" then .pending else .none
+  let parV := if has kv "events" && !big then
+      some (ParCase.judge bytes fin script (listS ',' (get kv "events")) wire
+              (obs.map (fun o => (o.bodyRead, readEndOfStr o.readEnd))))
+    else none
+  let aPar := match parV with
+    | some pv => pv.accepted && pv.terminal && pv.deliveredOk && (t.unmodelled || !wireObservable || pv.bytesOk)
+    | none => true
   let agr := "heads:" ++ b01 aHeads ++ ",bodies:" ++ b01 aBodies ++ ",seq:" ++ b01 aSeq ++ ",wire:" ++ b01 aWire
-    ++ ",eof:" ++ b01 aEof ++ ",ahead:" ++ b01 aAhead ++ ",hold:" ++ b01 aHold
+    ++ ",eof:" ++ b01 aEof ++ ",ahead:" ++ b01 aAhead ++ ",hold:" ++ b01 aHold ++ ",par:" ++ b01 aPar
   let classes := (reqs.map (·.cls)).eraseDups
   let kinds := t.delivered.map (fun d => match (framingOf d.headers) with
     | .ok fr => (match fr.kind with
@@ -190,9 +202,14 @@ def run (kv : KV) : String :=
           "n:" ++ toString (min t.delivered.length 5), "unix:" ++ b01 unix,
           "hold:" ++ b01 (get kv "hold" != "none"), "segs:" ++ b01 (get kv "segs" != "none")]
       ++ (t.statuses.eraseDups.map (fun s => "st:" ++ toString s))
-  let allAgree := aHeads && aBodies && aSeq && aWire && aEof && aAhead && aHold
+      ++ (if parV.isSome then ["par:1"] else [])
+  let allAgree := aHeads && aBodies && aSeq && aWire && aEof && aAhead && aHold && aPar
   let diff :=
     if allAgree then "-"
+    else if !aPar then (match parV with
+      | some pv => "par accepted=" ++ b01 pv.accepted ++ " rejected_at=" ++ (match pv.rejectedAt with | some n => toString n | none => "-")
+          ++ " bytes=" ++ b01 pv.bytesOk ++ " terminal=" ++ b01 pv.terminal ++ " delivered=" ++ b01 pv.deliveredOk
+      | none => "par")
     else if !aSeq || !aHeads then "delivered model=" ++ "|".intercalate (mobs.map (fun o => hex o.method ++ "," ++ hex o.url ++ "," ++ toString o.version.major ++ "." ++ toString o.version.minor ++ "," ++ showOptNat o.bodyLength))
     else if !aBodies then "bodies model=" ++ "|".intercalate (mobs.map (fun o => toString o.bodyRead.length ++ ":" ++ o.readEnd))
     else if !aWire then "wire model_len=" ++ toString t.out.length ++ " flushed=" ++ toString t.flushed ++ " impl_len=" ++ toString wire.length
